@@ -234,11 +234,6 @@ def run_case(ctx, case):
             variants.append(("cw", s, np.roll(P[::-1], -s, axis=0)))
         rings, wants, tags = [], [], []
         for orient, s, R in variants:
-            if np.any((np.abs(R[:, 2]) > 1 - 1.01e-8) & (np.abs(R[:, 2]) < 1.0)):
-                # a corner inside the library's pole-snapping band (within 1.42e-4 rad of a pole, not at it): a Cartesian-only source
-                # has it reported AT the pole (sanctioned by C04) - the grid then describes another polygon
-                ctx.observe("dropped_corner_in_pole_snap_band")
-                continue
             w = true_bounds(R)
             if w is None:
                 ctx.observe("dropped_margin_or_domain")
@@ -252,6 +247,12 @@ def run_case(ctx, case):
         # one grid per variant (single-face grids) - and all variants together as one multi-face grid
         pole_lon = [None, -94.57186012, 137.5, 359.0 - 360.0][case["pseed"] % 4] if case["placement"].startswith("corner_") else None
         cart = case["pseed"] % 3 == 0
+        if cart and np.any((np.abs(P[:, 2]) > 1 - 1.01e-8) & (np.abs(P[:, 2]) < 1.0)):
+            # a corner inside the library's pole-snapping band (within 1.42e-4 rad of a pole, not at it): from a Cartesian-only source
+            # it is reported AT the pole (sanctioned by C04) and the grid describes another polygon - such faces are given as lon/lat
+            cart = False
+            ctx.observe("corner_in_pole_snap_band_given_as_lonlat")
+        lonlat_only = not cart and np.any((np.abs(P[:, 2]) > 1 - 1.01e-8) & (np.abs(P[:, 2]) < 1.0))
         ctx.observe("source_cartesian_only" if cart else "source_lonlat")
         gall = grid_of(rings, pole_lon, cart)
         ball = get_bounds(ctx, gall, {"placement": case["placement"], "stage": "multi"}, detail0)
@@ -259,7 +260,7 @@ def run_case(ctx, case):
             sig = face_sig(w, k, case["placement"])
             det = dict(detail0, start=tag[1], want={k_: w[k_] for k_ in ("lat_min", "lat_max", "lon_lo", "lon_hi", "lon_width", "pole")}, ring_lonlat=np.array(ref.xyz_to_lonlat(R)).T.tolist())
             if i < 2:
-                g1 = grid_of([R], pole_lon, cart if i == 0 else not cart)
+                g1 = grid_of([R], pole_lon, (cart if i == 0 else not cart) and not lonlat_only)
                 b1 = get_bounds(ctx, g1, dict(sig, stage="single"), det)
                 if b1 is not None:
                     judge(ctx, b1[0], w, dict(sig, grid="single"), dict(det, got=b1[0].tolist()))
@@ -288,9 +289,6 @@ def run_case(ctx, case):
     for fi in range(m.n_face):
         R = m.ring_pos(fi)
         if not (3 <= len(R) <= 8):
-            continue
-        if np.any((np.abs(R[:, 2]) > 1 - 1.01e-8) & (np.abs(R[:, 2]) < 1.0)):
-            ctx.observe("dropped_corner_in_pole_snap_band")
             continue
         w = true_bounds(R)
         if w is None:
